@@ -56,8 +56,9 @@ enum S {
     OMap(Vec<(S, S)>),
     /// user-defined sequence object (`ObjectRepr::Seq`, `Enumerator::Seq`)
     OSeq(Vec<S>),
-    /// user-defined plain object with `custom_cmp` (orders by the number, renders zero-padded)
-    Ver(u32),
+    /// user-defined plain object with `custom_cmp`: ordered by the number alone, rendered zero-padded
+    /// followed by a tag the comparison ignores (so `custom_cmp` is not what the rendering says)
+    Ver(u32, String),
     /// an invalid value (`Value::from(Error)`)
     Inv(String),
     /// the silent undefined (`(1 if false)` evaluated through the expression API)
@@ -93,7 +94,7 @@ impl Object for OSeqObj {
 }
 
 #[derive(Debug)]
-struct VerObj(u32);
+struct VerObj(u32, String);
 impl Object for VerObj {
     fn repr(self: &Arc<Self>) -> ObjectRepr {
         ObjectRepr::Plain
@@ -106,7 +107,7 @@ impl Object for VerObj {
         Some(self.0.cmp(&other.0))
     }
     fn render(self: &Arc<Self>, f: &mut fmt::Formatter<'_>) -> fmt::Result {
-        write!(f, "ver{:06}", self.0)
+        write!(f, "ver{:06}{}", self.0, self.1)
     }
 }
 
@@ -173,7 +174,7 @@ fn build(s: &S) -> Value {
         S::Once(xs) => Value::make_one_shot_iterator(xs.iter().map(build).collect::<Vec<Value>>().into_iter()),
         S::OMap(ps) => Value::from_object(OMapObj(ps.iter().map(|(k, v)| (build(k), build(v))).collect())),
         S::OSeq(xs) => Value::from_object(OSeqObj(xs.iter().map(build).collect())),
-        S::Ver(n) => Value::from_object(VerObj(*n)),
+        S::Ver(n, t) => Value::from_object(VerObj(*n, t.clone())),
         S::Inv(msg) => Value::from(minijinja::Error::new(minijinja::ErrorKind::InvalidOperation, msg.clone())),
         S::USilent => {
             let env = Environment::new();
@@ -215,7 +216,7 @@ fn enc(s: &S) -> String {
             ps.iter().map(|(k, v)| format!("{}:{}", enc(k), enc(v))).collect::<Vec<_>>().join(",")
         ),
         S::OSeq(xs) => format!("[={}]", list(xs)),
-        S::Ver(n) => format!("C.{n}"),
+        S::Ver(n, t) => format!("C.{n}_{t}"),
         S::Inv(m) => format!("X.{}", hex(m.as_bytes())),
         S::USilent => "us".into(),
     }
@@ -308,7 +309,10 @@ fn dec(src: &str) -> S {
                 match tag {
                     "u" => S::Undef,
                     "us" => S::USilent,
-                    "C" => S::Ver(rest.parse().unwrap()),
+                    "C" => {
+                        let (n, t) = rest.split_once('_').unwrap_or((rest, ""));
+                        S::Ver(n.parse().unwrap(), t.to_string())
+                    }
                     "X" => S::Inv(txt(rest)),
                     "n" => S::None,
                     "t" => S::Bool(true),
@@ -494,11 +498,12 @@ fn zoo(thorough: bool) -> Vec<S> {
     z.push(m(vec![(S::OMap(vec![(s0("a"), i(1))]), i(5))]));
     z.push(m(vec![(m(vec![(s0("a"), i(1))]), i(5))]));
     z.push(m(vec![(S::OSeq(vec![i(1)]), i(2))]));
-    z.push(S::Ver(9));
-    z.push(S::Ver(10));
-    z.push(S::Ver(10));
-    z.push(S::Plain("ver000010".into()));
-    z.push(S::Seq(vec![S::Ver(9)]));
+    z.push(S::Ver(9, "z".into()));
+    z.push(S::Ver(10, "a".into()));
+    z.push(S::Ver(10, "b".into()));
+    z.push(S::Ver(11, "".into()));
+    z.push(S::Seq(vec![S::Ver(10, "a".into())]));
+    z.push(S::Seq(vec![S::Ver(10, "b".into())]));
     z.push(S::Inv("boom".into()));
     z.push(S::Inv("bang".into()));
     z.push(S::Seq(vec![S::Inv("boom".into())]));
@@ -1407,7 +1412,22 @@ fn rand_value(rng: &mut Rng, depth: u32) -> S {
             }
             S::OMap(ps)
         }
-        _ => S::Map((0..n).map(|_| (rand_key(rng), rand_value(rng, depth - 1))).collect()),
+        _ => {
+            // no two keys that are `==` without being `Equal` (a bool next to the number it equals): under
+            // IndexMap such a map's lookups depend on the hash table layout (the recorded Bool~Number finding)
+            let mut ps: Vec<(S, S)> = vec![];
+            for _ in 0..n {
+                let k = rand_key(rng);
+                let kv = build(&k);
+                if !ps.iter().any(|(q, _)| {
+                    let qv = build(q);
+                    qv == kv && qv.cmp(&kv) != Ordering::Equal
+                }) {
+                    ps.push((k, rand_value(rng, depth - 1)));
+                }
+            }
+            S::Map(ps)
+        }
     }
 }
 
@@ -1649,8 +1669,28 @@ impl<'e> Fv<'e> {
                     args.push(Value::from("k"));
                 }
                 args.push(Value::from(f[1]));
-                args.push(arg);
-                self.list_out(self.apply(name, &args), wrap)
+                args.push(arg.clone());
+                let got = self.list_out(self.apply(name, &args), wrap);
+                // what the test means, evaluated directly with Value's operators
+                let inv = b(f[2]);
+                let exp: Vec<Value> = self
+                    .items(f[4], wrap)
+                    .into_iter()
+                    .filter(|x| {
+                        let k = get_k(x, wrap);
+                        let pass = match f[1] {
+                            "eq" => k == arg,
+                            "ne" => k != arg,
+                            "lt" => k.cmp(&arg) == Ordering::Less,
+                            "le" => k.cmp(&arg) != Ordering::Greater,
+                            "gt" => k.cmp(&arg) == Ordering::Greater,
+                            _ => k.cmp(&arg) != Ordering::Less,
+                        };
+                        pass != inv
+                    })
+                    .collect();
+                let want = format!("ok:{}", self.show(&exp, wrap));
+                if got == want { got } else { format!("{got} MISMATCH want={want}") }
             }
             "min" | "max" => match self.apply(f[0], &[Value::from(self.items(f[1], false))]) {
                 Ok(v) if v.is_undefined() => "ok:u".into(),
@@ -1670,7 +1710,11 @@ impl<'e> Fv<'e> {
                     _ => Value::from_object(OMapObj(items.into_iter().map(|k| (k, Value::from(1))).collect())),
                 };
                 let arg = build(&self.al[LETTERS.find(f[3]).unwrap()]);
-                render_flag(self.env, "{{ 1 if a in c else 0 }}", context! { a => arg, c => c }).to_string()
+                let got = render_flag(self.env, "{{ 1 if a in c else 0 }}", context! { a => arg.clone(), c => c }).to_string();
+                // `x in c`: some item (some key) is == x; a NaN key is found by a BTreeMap though it is not == itself
+                let nan_key = f[1] == "map" && arg.to_string() == "NaN";
+                let want = (self.items(f[2], false).iter().any(|y| *y == arg) as u8).to_string();
+                if got == want || nan_key { got } else { format!("{got} MISMATCH want={want}") }
             }
             // fv lit <word>: the map literal `{k0: 0, k1: 1, …}` → `key=value` pairs in iteration order
             "lit" => {
